@@ -20,22 +20,45 @@ import numpy as np
 from runner import Infra
 
 ID = "C01"
-LEAN_MODULES = ["PyYetiVerif.Props.C01", "PyYetiVerif.Audit.C01"]
+LEAN_MODULES = [
+    "PyYetiVerif.Props.C01",
+    "PyYetiVerif.Props.C01Part",
+    "PyYetiVerif.Props.C01Static",
+    "PyYetiVerif.Props.C01Unique",
+    "PyYetiVerif.Props.C01Coupled",
+    "PyYetiVerif.Props.C01Delconj",
+    "PyYetiVerif.Props.C01Exp",
+    "PyYetiVerif.Audit.C01",
+]
 AUDIT_FILE = "PyYetiVerif/Audit/C01.lean"
 THEOREMS = [
     "PyYetiVerif.C01." + n
     for n in (
         "su_solves_ode_under su_solves_ode_over su_solves_ode_crit su_solves_ode_rb su_solves_ode_rb_damped "
         "su_solves_ode su_coef_eq order0_exact rigidVelo_velocity_exact rf_static run_exact run_length "
-        "accel_eom mNone_eq_mOne cplx_solves_ode cplx_coef_eq cplx_small_exact partition_ok rb_order_agrees"
+        "accel_eom mNone_eq_mOne cplx_solves_ode cplx_coef_eq cplx_small_exact partition_ok rb_order_agrees "
+        # partition bookkeeping, second part (Props/C01Part.lean)
+        "el_order_agrees partition_auto_ok small_unc_iff small_coupled_iff mkSlice_spec slicesFlag_iff "
+        # initial conditions and rf rows (Props/C01Static.lean)
+        "rf_static_rows static_ic_ok explicit_ic zero_ic "
+        # uniqueness (Props/C01Unique.lean)
+        "isSol_unique su_solves_ode_unique run_exact_unique "
+        # coupled path (Props/C01Coupled.lean, Props/C01Delconj.lean)
+        "decoupled_recovers coupled_step_exact coupled_run_exact delconj_recovers coupled_run_exact_real oscKept_spec "
+        # SolveExp2 (Props/C01Exp.lean)
+        "exp2_step_exact exp2_run_exact freeA_spec"
     ).split()
 ]
 TRUSTED = [
     "correspondence harness harness/props/c01.py (|impl-model| <= 1e-9*scale, scale = largest magnitude among the "
-    "added terms; coupled/expm paths 1e-7*scale*cond(phi))",
+    "added terms; streams through eig/expm 1e-9*scale*cond of the eigenvectors; closed-form stream 1e-7*scale*cond(phi))",
     "numpy/libm exp, sin, cos, sqrt, pow at Float (1-ulp differences between numpy and Lean's C library calls)",
-    "scipy.linalg.eig / eigh / lu_solve and expmint.getEPQ are not modelled: the coupled path, pre_eig and "
-    "SolveExp1/2 are compared with the closed form mapped through chosen mode shapes (residual measured per run)",
+    "scipy.linalg.eig / inv (coupled path), eigh (pre_eig), lu_solve and expmint.getEPQ are not modelled: they enter "
+    "the theorems as hypotheses (DelconjSpec: the eigen-decomposition rebuilt from pc.lam, pc.ur, pc.ur_inv diagonalises "
+    "A and is inverted by ur_inv; ExpSpec: E, P, Q are exp(Ah) and its two integrals) and these hypotheses are measured "
+    "on the implementation's own pc / E, P, Q on every run with plain numpy / scipy.linalg.expm (residual <= 1e-9*cond, "
+    "resp. 1e-8); M^-1 F, the coupled static initial state K_ee^-1 F0 and the coupled acceleration M^-1 (F - B v - K d) "
+    "are evaluated with numpy inside the harness from the model's d, v",
     "switch errors of the cut-offs (|w2/wo2| < 1e-8 treated as critical, |lam| < 5e-5 treated as zero, "
     "wo2 < 0.005 treated as rigid) and the (w h)^-3 cancellation are floating-point facts: measured, not proved",
 ]
@@ -44,44 +67,67 @@ RULE = (
     "velocity-only, rigid-damped full, under, critical, over, rf) plus both sides of every cut-off (nextafter / "
     "ulp jitter around wo2 = 0.005, |rat| = 1e-8, |C| = 1e-5/sqrt(h), |C| = 10(1e-10/h)^(1/3), |lam| = 5e-5); "
     "non-trivial = a dynamic regime (not rf) with h > 0; distinct by the input bit patterns. (p) one case = "
-    "(n, rb, rf, small-k flags), exhaustive for n <= 4 in the thorough tier. (b) one case = a modal system (n <= 6 "
+    "(n, rb, rf, small-k flags), exhaustive for n <= 4 in the thorough tier; (p2) one case = coupled non-rf k, b "
+    "(n <= 6, entries on both sides of the 0.005 tolerance, in rows only / columns only / k only / b only) x rf set, "
+    "rb auto-detected; non-trivial = both rb and el non-empty. (b) one case = a modal system (n <= 6 "
     "modes of mixed regimes, contiguous or interleaved rb/el/rf order) x order x mass packaging x rb given/auto x "
     "static_ic x d0/v0, nt <= 24 samples; non-trivial = at least one dynamic mode and nt >= 3. (c) one case = modal "
-    "data + a well-conditioned mode-shape matrix, compared on five solver variants"
+    "data + a well-conditioned mode-shape matrix, compared on five solver variants. (q) one case = a coupled system "
+    "(general M, symmetric / skew / mixed / no damping, gyroscopically coupled zero-stiffness DOF, or built from modal "
+    "data with block rigid-body modes) x order x d0/v0/static_ic; the Lean model is run on the implementation's own "
+    "pc.lam, ur, ur_inv; cond(eigenvectors) > 1e6 skipped and counted. (r) the same systems (any damping, singular "
+    "stiffness allowed) and uncoupled ones with rf modes through SolveExp2, the Lean model run on its own E, P, Q"
 )
 ASSUMPTIONS = [
     "mass is non-singular and the rb/rf partitions are given in modal space (documented domain)",
     "theorems are over the reals / complexes; Float evaluation is used only in the correspondence check",
-    "coupled-path statements rest on the eigen-decomposition / matrix-exponential specifications (measured, not proved)",
+    "coupled-path theorems: the kept eigen-data satisfy DelconjSpec (rebuilt decomposition: U V = 1, V U = 1, "
+    "A U = U diag(lam), real modes real, small-eigenvalue branch only for zero eigenvalues); SolveExp2 theorems: "
+    "E, P, Q satisfy ExpSpec (E = exp(A h), P, Q its hold integrals); both measured per run, not proved of scipy",
 ]
 PARTIAL = (
-    "partial: (1) the coupled path (eig), pre_eig (eigh) and SolveExp1/2 (expm) are tied to the closed form by "
-    "correspondence only; decoupled_recovers is not proved; (2) uniqueness of the ODE solution is not proved (every "
-    "sample is the end state of *a* solution of the equation of motion with the hold forcing, started from the "
-    "previous sample); (3) the rigid-damped velocity-only regime is exact for the velocity only (by design of the "
-    "source: rigidVelo_velocity_exact states the displacement defect); (4) partition_ok covers an explicit rb "
-    "vector; auto-detected rb, mkSlice/slices and the static-initial-condition set-up are tied by exact / numeric "
-    "correspondence only (exhaustive n <= 4 in the thorough tier); (5) cd_as_force (off-diagonal damping as force) "
-    "is outside the exactness property and not modelled; (6) switch errors of the cut-offs and cancellation below "
+    "partial: (1) scipy.linalg.eig/inv, eigh (pre_eig), lu_solve and expmint's Pade evaluation are not modelled: "
+    "decoupled_recovers / delconj_recovers / coupled_run_exact_real and exp2_step_exact / exp2_run_exact are proved "
+    "*given* the eigen-decomposition resp. E = exp(Ah), P, Q (the hypotheses are measured on the implementation's own "
+    "values each run; Props/C07 proves the series-level content of E, P, Q); the pre_eig transformation (eigh, modal "
+    "force phi'F, initial conditions phi^-1 d0) and SolveExp1 are tied by correspondence only; the rigid-body recurrence "
+    "of the coupled path (rbStep) is tied by correspondence and is the rigid regime of su_coef_eq algebraically, no "
+    "separate theorem; (2) the rigid-damped velocity-only regime is exact for the velocity only (by design of the "
+    "source: rigidVelo_velocity_exact states the displacement defect); (3) the coupled static initial state "
+    "(np.linalg.solve(k_ee, F0)) and the coupled acceleration (lu_solve) are evaluated by numpy in the harness, not "
+    "by the Lean model; (4) cd_as_force (off-diagonal damping as force) is outside the exactness property and not "
+    "modelled; (5) switch errors of the cut-offs (|lam| < 5e-5, |w2/wo2| < 1e-8, wo2 < 0.005) and cancellation below "
     "w*h = 1e-2 are floating-point facts: measured, not proved"
 )
 MANIFEST = {
     "level_text": "Proof (Lean 4, kernel-checked, standard axioms only) about ONE polymorphic transcription of "
-    "get_su_coef and of the SolveUnc recurrences: for each regime (under-, over-, critically damped, rigid, damped "
-    "rigid) the closed form built from the code's own F, G, Fp, Gp is differentiable with x' = v, v' = a, satisfies "
-    "m a + b v + k x = p + s t and the initial conditions; the code's A, B, Ap, Bp make one step equal to that solution at "
-    "t = h for a force linear on the step (order 1) or held (order 0); by induction every sample of the recurrence is "
-    "the end state of such a solution started at the previous sample; the returned acceleration satisfies the equation "
-    "of motion; the complex-eigenvalue coefficients Fe, Ae, Be solve y' = lam y + w0 + s t; for an explicit rb vector "
-    "rb/el/rf partition [0,n) and the positions handed to get_su_coef select exactly the rb modes. "
-    "The same definitions run at Float and are compared with get_su_coef, SolveUnc.tsolve (option grid), the "
-    "coupled path, pre_eig, SolveExp2 and SolveExp1 on every run.",
-    "level_note": "Trusted: Lean kernel; propext, Classical.choice, Quot.sound; the Python harness; libm. Partial: the "
-    "eigen-decomposition / matrix-exponential paths are tied by correspondence only; uniqueness not proved; cut-off "
-    "switch errors and cancellation below w*h = 1e-2 are measured, not proved.",
+    "get_su_coef and of the SolveUnc / SolveExp2 recurrences. Uncoupled path: for each regime (under-, over-, critically "
+    "damped, rigid, damped rigid) the closed form built from the code's own F, G, Fp, Gp solves m a + b v + k x = p + s t "
+    "with the initial conditions; the code's A, B, Ap, Bp make one step equal to that solution at t = h (order 1 and 0); "
+    "the solution is unique (Groenwall, Mathlib), so every sample of the recurrence is the end state of THE solution "
+    "started at the previous sample (run_exact_unique); the returned acceleration satisfies the equation of motion. "
+    "Coupled path: if A U = U diag(lam), U V = 1, the modal recurrence with the code's Fe, Ae, Be mapped back through U "
+    "is the state of THE solution of z' = A z + [M^-1 f; 0] (decoupled_recovers), the d / v blocks are those of the "
+    "second-order equation (coupled_step_exact, coupled_run_exact), and for real systems the kept-conjugate recurrence "
+    "with the doubled eigenvectors and rur_d ry - iur_d iy recovers exactly that real solution, sample after sample "
+    "(delconj_recovers, coupled_run_exact_real). SolveExp2: given E = exp(Ah) and the two hold integrals, every sample "
+    "of the E/P/Q recurrence is the end state of THE solution (exp2_step_exact, exp2_run_exact). Bookkeeping: rb/el/rf "
+    "partition [0,n) for explicit and auto-detected rb (uncoupled |k| test, coupled row/column maxima of |k|, |b|), "
+    "nonrf[_rb] = rb and nonrf[_el] = el in order, _mk_slice converts exactly the contiguous ranges; static_ic gives "
+    "k d0 = F0, v0 = 0, a0 = 0 on elastic rows, rf rows are the static solution. The same definitions run at Float and "
+    "are compared with get_su_coef, SolveUnc.tsolve (option grid), the coupled path (closed form, and driven by the "
+    "implementation's own eigen-decomposition), pre_eig, SolveExp2 (closed form, and driven by its own E, P, Q) and "
+    "SolveExp1 on every run.",
+    "level_note": "Trusted: Lean kernel; propext, Classical.choice, Quot.sound; the Python harness; libm. Partial: "
+    "scipy's eig / inv / eigh / lu_solve and expmint's Pade evaluation are hypotheses of the coupled and SolveExp2 "
+    "theorems, measured on the implementation's own values on every run (not proved); pre_eig and SolveExp1 are tied by "
+    "correspondence only; cut-off switch errors and cancellation below w*h = 1e-2 are measured, not proved.",
     "technique": "Lean 4 proof (HasDerivAt of closed forms through one polymorphic definition, field_simp/ring "
-    "identities, induction over steps) + numeric differential correspondence at Float + model-free oracle "
-    "(solver agreement, step-subdivision invariance, option invariance, EOM residual)",
+    "identities, induction over steps, Mathlib ODE uniqueness, Matrix algebra over C for the decoupling and the "
+    "conjugate-pair reduction, variation of constants for E/P/Q) + numeric differential correspondence at Float "
+    "(including streams in which the model is driven by the implementation's own eig / expm results, with the "
+    "hypotheses of the theorems measured) + model-free oracle (solver agreement, scipy-expm reference, step-subdivision "
+    "invariance, option invariance, static equilibrium, EOM residual)",
 }
 
 NAMES = "F G A B Fp Gp Ap Bp".split()
@@ -983,7 +1029,8 @@ def _gen_pc_specs(ctx, rng, n_general, n_modal):
         M, B, K = _physical(c, np.array(c["phi"]))
         out.append({"kind": "general", "n": c["n"], "h": c["h"], "order": c["order"], "style": "modal", "nz": 0,
                     "M": M.tolist(), "B": B.tolist(), "K": K.tolist(), "F": c["F"], "d0": c["d0"], "v0": c["v0"],
-                    "static": bool(c["d0"] is None and rng.random() < 0.5), "blockphi": bool(c.get("blockphi"))})
+                    "static": bool(c["d0"] is None and rng.random() < 0.5), "blockphi": bool(c.get("blockphi")),
+                    "usys": c})
     return out
 
 
@@ -1170,7 +1217,7 @@ def _corr_exp2(ctx, drv):
         specs.append({"kind": "general", "n": u["n"], "h": u["h"], "order": u["order"], "style": "uncoupled", "nz": 0,
                       "M": (np.eye(u["n"]) if m is None else m).tolist(), "B": b.tolist(), "K": k.tolist(),
                       "F": u["F"], "d0": u["d0"], "v0": u["v0"], "static": u["static"], "rb": u["rb"], "rf": u["rf"],
-                      "unc": {"m": u["m"], "b": u["b"], "k": u["k"], "pack": u["pack"]}})
+                      "unc": {"m": u["m"], "b": u["b"], "k": u["k"], "pack": u["pack"]}, "usys": u})
     jobs, reqs = [], []
     for s in specs:
         M, B, K, F = (np.array(s[x], float) for x in ("M", "B", "K", "F"))
@@ -1644,6 +1691,41 @@ def _oracle_general(s, fails):
     if condV < 1e5 and s["nz"] == 0 or (condV < 1e5 and s["style"] == "skew-on-zero-stiffness" and s["nz"] >= 2):
         # the complex-eigenvalue path needs a diagonalisable state matrix; accuracy graded by cond(V)
         run("SolveUnc-coupled", lambda: ode.SolveUnc(M, B, K, h, order=o).tsolve(F, d0, v0), 1e-9 * max(10.0, condV))
+    if s["nz"] == 0 and s["style"] not in ("uncoupled", "modal"):
+        # static initial conditions (no rigid-body mode: every equation is elastic): K d(0) = F(0), v(0) = v0, and
+        # the history is the one started from that state; explicit rb=[] is the same problem as rb=None
+        ds = np.linalg.solve(K, F[:, 0])
+        rd, rv, ra, _ = _expm_reference(M, B, K, h, F, ds, v0, o)
+        sd = np.abs(rd).max() + h * np.abs(rv).max() + 1e-300
+        sv = np.abs(rv).max() + sd / h + 1e-300
+        sa = np.abs(ra).max() + sv / h + 1e-300
+        variants = [("SolveExp2-static_ic", lambda: ode.SolveExp2(M, B, K, h, order=o).tsolve(F, None, v0, True), 1e-8)]
+        if condV < 1e5:
+            tolu = 1e-9 * max(10.0, condV)
+            variants += [
+                ("SolveUnc-coupled-static_ic", lambda: ode.SolveUnc(M, B, K, h, order=o).tsolve(F, None, v0, True), tolu),
+                ("SolveUnc-coupled-rb-empty", lambda: ode.SolveUnc(M, B, K, h, rb=[], order=o).tsolve(F, ds, v0), tolu)]
+        for name, fn, tol in variants:
+            try:
+                with warnings.catch_warnings():
+                    warnings.simplefilter("ignore")
+                    sol = fn()
+            except Exception as e:  # noqa: BLE001
+                fails.append({"family": "general-coupled-raises-" + name, "what": name + " refuses a valid coupled system",
+                              "input": inp, "observed": "%s: %s" % (type(e).__name__, str(e)[:100]), "required": "a solution"})
+                continue
+            r0 = float(np.abs(K @ np.asarray(sol.d)[:, 0] - F[:, 0]).max() / (np.abs(F[:, 0]).max() + np.abs(K).max() * np.abs(ds).max() + 1e-300))
+            if r0 > 1e-9:
+                fails.append({"family": "static-ic-not-in-equilibrium-" + name, "what": "K d(0) != F(0) with static_ic",
+                              "input": inp, "observed": r0, "required": "<= 1e-9"})
+                continue
+            for nm, x, y, sc in (("d", sol.d, rd, sd), ("v", sol.v, rv, sv), ("a", sol.a, ra, sa)):
+                e = _note("general-" + name, _rel(np.asarray(x), y, sc))
+                if not e <= tol:
+                    fails.append({"family": "general-coupled-" + name + "-vs-expm-reference",
+                                  "what": "%s differs from the exact hold solution started in static equilibrium in %s" % (name, nm),
+                                  "input": inp, "observed": e, "required": "<= %g" % tol})
+                    break
 
 
 def _oracle_one(s):
@@ -1676,6 +1758,11 @@ def _hint_specs(hints):
         st = i.get("stream")
         if st in ("hist", "coupled"):
             out.append({k_: v for k_, v in i.items() if k_ not in ("stream", "solver")})
+        elif st in ("pc", "exp2"):
+            if i.get("usys") is not None:
+                out.append(i["usys"])
+            else:
+                out.append({k_: v for k_, v in i.items() if k_ not in ("stream", "static", "rb", "rf", "blockphi")})
         elif st == "coef" and i.get("rf") == "0":
             # a one-mode system around the disagreeing coefficient input
             m, b, k, hh = i["m"], i["b"], i["k"], i["h"]
